@@ -68,6 +68,10 @@ func (t *c04Tok) subtree(out *[]*c04Tok) {
 
 func runC04(rc *RunCtx) {
 	s, tp := rc.S, rc.S.Tape
+	if tp.Pick(10) == 9 {
+		runC04CrossNS(rc)
+		return
+	}
 	cacheOff := tp.Pick(2) == 1
 	plain := tp.Pick(3) == 2
 	faulty := tp.Pick(4) == 3
